@@ -78,7 +78,7 @@ func (l Layout) annotation(n *SNode, indent string) string {
 	if len(n.Rules) > 0 {
 		sep := l.Pad + ", " + l.Pad
 		open, close, brk := "{", "}", ""
-		if l.Ann == "multi-broken" {
+		if l.Ann == "multi-broken" || l.Ann == "multi-broken-colon" {
 			brk = l.NL + indent + "   "
 			sep = "," + brk
 			open, close = "{"+brk, l.NL+indent+"}"
@@ -98,6 +98,17 @@ func (l Layout) annotation(n *SNode, indent string) string {
 			val := r.Val
 			if l.QuoteNames {
 				val = quoteInnerNames(val, l.EscNames)
+			}
+			if l.Ann == "multi-broken-colon" {
+				// a line break on either side of the colon
+				// (a bare name ends at the first blank; only a quoted one may be followed
+				// by a line break before its colon)
+				if i%2 == 0 || !l.QuoteNames {
+					body.WriteString(name + ":" + brk + val)
+				} else {
+					body.WriteString(name + brk + ": " + val)
+				}
+				continue
 			}
 			body.WriteString(name + l.Pad + ":" + " " + l.Pad + val)
 		}
@@ -227,7 +238,7 @@ func (p *printer) node(n *SNode, indent, prefix, suffix string) {
 		p.emit(withAnn(indent + prefix + n.Lit + suffix))
 	case 'o':
 		if len(n.Items) == 0 {
-			p.emit(withAnn(indent + prefix + "{}" + suffix))
+			p.emit(withAnn(indent + prefix + "{" + l.Pad + "}" + suffix))
 			return
 		}
 		p.emit(withAnn(indent + prefix + "{"))
@@ -241,7 +252,7 @@ func (p *printer) node(n *SNode, indent, prefix, suffix string) {
 		p.emit(indent + "}" + suffix)
 	case 'a':
 		if len(n.Items) == 0 {
-			p.emit(withAnn(indent + prefix + "[]" + suffix))
+			p.emit(withAnn(indent + prefix + "[" + l.Pad + "]" + suffix))
 			return
 		}
 		p.emit(withAnn(indent + prefix + "["))
